@@ -125,16 +125,16 @@ Lemma step_ok : forall s o, InvA s -> guard NH true false s o ->
 Proof.
   intros s o IA [_ G]. pose proof IA as [I Ac]. destruct (acyclic_bounded s Ac) as [rank Rk].
   assert (TRIV : Inv s /\ K0 s s) by (split; [auto | apply K0_refl]).
-  destruct o as [k d|p key c|p key|p l|p key|p key|n|n|n|n|n|n|n d]; unfold step; try (destruct G; fail).
+  destruct o as [k d|p key c|p key|p l|p key|p key|n|n|n|n|n|n|n d|n]; unfold step; try (destruct G; fail).
   - (* new *) simpl. split; [apply Inv_new; auto|].
     intros n x' E C. apply nth_app_new in E. destruct E as [[L E]|[-> ->]]; [|discriminate]. exists x'. auto.
   - destruct (setitem s p key c) as [s'|e] eqn:E; simpl; auto.
     destruct (setitem_ok NH s p key c s' I E) as [I' M]. split; auto. apply K0_stepm; auto.
   - destruct (delitem true s p key) as [s' e] eqn:E.
-    destruct (delitem_ok NH s p key s' e I E) as [I' M].
+    destruct (delitem_ok NH s p key s' e I E) as (I' & M & _).
     destruct e; simpl; (split; [auto | apply K0_stepm; auto]).
   - destruct G as [ND HL]. destruct (update_many true s p l) as [s' e] eqn:E.
-    destruct (update_many_ok NH s p l s' e I ND HL E) as [I' M].
+    destruct (update_many_ok NH s p l s' e I ND HL E) as (I' & M & _).
     destruct e; simpl; (split; [auto | apply K0_stepm; auto]).
   - destruct (getitem_ s p key); simpl; auto.
   - destruct (contains_ s p key); simpl; auto.
@@ -167,6 +167,15 @@ Proof.
       { destruct Rk as [_ B]. specialize (B n). lia. }
       rewrite E. simpl. split; [eapply Inv_nr; eauto | apply K0_nr; auto].
     + simpl. unfold get. destruct (nth_error s n) eqn:E; [exfalso; apply L; eapply nth_lt; eauto|]. simpl. auto.
+  - (* swhid: the hash, for the on-disk classes *)
+    assert (HC : Inv (fst (of_res s (read_hash NH false n s) OutHash)) /\
+                 K0 s (fst (of_res s (read_hash NH false n s) OutHash))).
+    { unfold read_hash. destruct (update_hash NH false (S (length s)) false n s) as [[s' h]|e] eqn:E; simpl; auto.
+      pose proof (update_hash_lt _ _ _ _ _ E) as L.
+      destruct (hash_op_ok false n s IA L) as (s2 & h2 & E2 & I2 & _ & K2 & _). rewrite E in E2. inversion E2; subst.
+      split; auto. apply K0_keepc; auto. }
+    unfold swhid, get. destruct (nth_error s n) as [x|] eqn:Ex; simpl; auto.
+    destruct (kind x); simpl; auto.
 Qed.
 
 Lemma step_inv : forall s o, InvA s -> guard NH true false s o -> InvA (fst (step NH true false s o)).
@@ -234,6 +243,50 @@ Lemma no_stale : forall h o, guarded NH true false [] h -> guard NH true false (
      exists x, nth_error s n = Some x /\ FreshKids s' (kids x) es).
 Proof. intros h o. apply (no_stale_from [] h o InvA_init). Qed.
 
+
+(* an operation that raises leaves the heap as it was: no cached hash, no
+   collected flag, no link is touched by a failed set / delete / bulk update /
+   lookup (nor by any other operation answering an error) *)
+Lemma failed_op_is_noop : forall s o e, InvA s -> guard NH true false s o ->
+  snd (step NH true false s o) = OutErr e -> fst (step NH true false s o) = s.
+Proof.
+  intros s o e [I _] [_ G] H.
+  destruct o as [k d|p key c|p key|p l|p key|p key|n|n|n|n|n|n|n d|n]; unfold step in *; try (destruct G; fail).
+  - discriminate.
+  - destruct (setitem s p key c); simpl in *; [discriminate | reflexivity].
+  - destruct (delitem true s p key) as [s' [e0|]] eqn:E; simpl in *; [|discriminate].
+    destruct (delitem_ok NH s p key s' (Some e0) I E) as (_ & _ & N). apply (N e0 eq_refl).
+  - destruct G as [ND HL]. destruct (update_many true s p l) as [s' [e0|]] eqn:E; simpl in *; [|discriminate].
+    destruct (update_many_ok NH s p l s' (Some e0) I ND HL E) as (_ & _ & N). apply (N e0 eq_refl).
+  - destruct (getitem_ s p key); reflexivity.
+  - destruct (contains_ s p key); reflexivity.
+  - destruct (read_hash NH false n s) as [[s' h]|e0]; simpl in *; [discriminate | reflexivity].
+  - destruct (force_hash NH false n s) as [[s' h]|e0]; simpl in *; [discriminate | reflexivity].
+  - destruct (entries NH false n s) as [[s' h]|e0]; simpl in *; [discriminate | reflexivity].
+  - destruct (to_model NH false n s) as [[s' h]|e0]; simpl in *; [discriminate | reflexivity].
+  - destruct (collect NH false (S (length s)) n s) as [[s' h]|e0]; simpl in *; [discriminate | reflexivity].
+  - destruct (reset_collect (S (length s)) n s) as [s'|e0]; simpl in *; [discriminate | reflexivity].
+  - destruct (swhid NH false n s) as [[s' h]|e0]; simpl in *; [discriminate | reflexivity].
+Qed.
+
+(* swhid() of a Directory / Content node: the object id is the hash *)
+Lemma step_swhid_eq : forall s n x, nth_error s n = Some x -> kind x = KDir \/ kind x = KContent ->
+  step NH true false s (OSwhid n) = step NH true false s (OHash n).
+Proof.
+  intros s n x E K. unfold step, swhid, get. rewrite E. simpl. destruct K as [-> | ->]; reflexivity.
+Qed.
+
+Lemma swhid_fresh : forall h n x, guarded NH true false [] h ->
+  let s := final NH true false [] h in
+  guard NH true false s (OSwhid n) -> nth_error s n = Some x -> kind x = KDir \/ kind x = KContent ->
+  exists hv, snd (step NH true false s (OSwhid n)) = OutHash hv /\
+             Fresh (fst (step NH true false s (OSwhid n))) n hv /\ Fresh s n hv.
+Proof.
+  intros h n x GH s GO E K. rewrite (step_swhid_eq s n x E K).
+  assert (GO' : guard NH true false s (OHash n)).
+  { destruct GO as [A _]. rewrite (step_swhid_eq s n x E K) in A. split; auto. }
+  destruct (no_stale h (OHash n) GH GO') as [HN _]. apply (HN n); auto. eapply nth_lt; eauto.
+Qed.
 
 (* every child edge has its back-link, in particular after a delete: the
    removal of one link (by identity) leaves the links to the other parents *)
